@@ -20,7 +20,7 @@ import (
 // exceptions / interpolated strings, plus heredoc, nowdoc and inline-HTML tails.
 func genPrograms(e *lib.Env) []string {
 	r := e.Rand("gen")
-	n := e.Pick(10, 120)
+	n := e.Pick(7, 80)
 	var out []string
 	for i := 0; i < n; i++ {
 		cfg := gen.Config{MaxDepth: 2 + r.Intn(3), Budget: 8 + r.Intn(22), Exceptions: r.Intn(2) == 0, ThrowBias: r.Intn(6)}
@@ -138,7 +138,7 @@ func buildCases(e *lib.Env, bs []base) []cspec {
 		}
 	}
 	// insertion of a lexically dangerous snippet (in place, or as the last bytes of a truncation)
-	for k := 0; k < e.Pick(4000, 60000); k++ {
+	for k := 0; k < e.Pick(3000, 50000); k++ {
 		bi := pick()
 		b := bs[bi]
 		off := rb.Intn(len(b.Src) + 1)
@@ -154,7 +154,7 @@ func buildCases(e *lib.Env, bs []base) []cspec {
 		add(cspec{ID: fmt.Sprintf("%s:%s:%d:%x", b.Name, op, off, sn), Fam: "bytes", Base: bi, Op: op, I: off, Raw: sn, Run: strings.HasPrefix(b.Name, "gen:")})
 	}
 	// bit flips
-	for k := 0; k < e.Pick(1500, 25000); k++ {
+	for k := 0; k < e.Pick(1200, 20000); k++ {
 		bi := pick()
 		b := bs[bi]
 		off := rb.Intn(len(b.Src))
@@ -264,6 +264,9 @@ func nestCases(e *lib.Env) []cspec {
 		{"assign", "$a=", "1", ""},
 		{"new", "new A(", "", ")"},
 		{"arr-kv", "['k'=>", "1", "]"},
+		{"arr-var-first", "[$a, ", "1", "]"},
+		{"echo-list", "echo 1, $a, ", "2", ""},
+		{"call-var-first", "f($a, ", "1", ")"},
 		{"openonly-paren", "(", "", ""},
 		{"openonly-bracket", "[", "", ""},
 		{"openonly-brace", "{", "", ""},
